@@ -5,8 +5,8 @@ from harness import core, ragged
 class C05(core.Check):
     pid = 'C05'
     driver = 'drv_ragged'
-    quick_cases = 2500
-    thorough_cases = 40000
+    quick_cases = 12000
+    thorough_cases = 120000
     rule = ('random containers (0-6 rows x 0-5 cols, cell lengths 0-4 incl. all-empty, int and float payload) x '
             'programs of 1-6 selections from the IndexSelectType grammar (int/slice/list/range/tensor/mask, both axes, '
             'tuples, single cells, ~12% deliberately illegal); a case is non-trivial when at least one step returns a '
